@@ -313,10 +313,14 @@ def make_overlay(scratch, swaps=(), extra=()):
                 m = re.search(r"^//verif:target\s+(\S+)", open(p).read(), re.M)
                 if m:
                     rep[os.path.join(REPO, m.group(1))] = p
+    swapped = {}   # substitutions for one file are merged (e.g. unix_swap + swaps on the same file)
     for rel, subs in swaps:
-        src = open(os.path.join(REPO, rel)).read()
+        src = swapped.get(rel)
+        if src is None:
+            src = open(os.path.join(REPO, rel)).read()
         for old, new in subs:
             src = src.replace('"%s"' % old, new)
+        swapped[rel] = src
         dst = os.path.join(scratch, "swap_" + rel.replace("/", "_"))
         open(dst, "w").write(src)
         rep[os.path.join(REPO, rel)] = dst
